@@ -130,3 +130,62 @@ Theorem C09_reward_homogeneity_order_k_real :
     = c ^+ k *: mk (fun n : nat => @mexp n) a S Rs k t.
 Proof. exact: real_mk_scale_all. Qed.
 Print Assumptions C09_reward_homogeneity_order_k_real.
+
+(* ------------------------------------------------------------------------------------------------
+   proofs/SpaceFactsAllRates.v: the time-rescaling law of the STATE SPACE with NO BOUND.  Changing the
+   time unit by c means [scaleP c P]: every population time scale multiplied by c, every migration
+   rate and the recombination rate divided by c (model, lineage-/block-counting flag unchanged).  The
+   theorems are structural proofs over the model of the code's algorithm ([transit] = the transitions
+   out of one state, [get_transitions] = the breadth-first construction, [rate_matrix] = the generator
+   assembled from the transition dictionaries), over the REAL numbers, for every coalescent model with
+   arbitrary real parameters, every number of loci, demes and samples, both state spaces, every search
+   depth and every real c (c = 0 included, with x / 0 = 0 as in Coq's reals).  The only hypothesis is
+   that the parameter record has a time scale for every deme.
+
+   C09_transit_time_rescaling_unbounded          out of any state, the rescaled model has the same
+                                                 targets in the same order, every rate divided by c.
+   C09_get_transitions_time_rescaling_unbounded  the breadth-first construction finds the same states
+                                                 in the same order (or fails alike), and every
+                                                 transition dictionary has its rates divided by c
+                                                 ([sct c]).
+   C09_rate_matrix_time_rescaling_unbounded      the generator assembled from the rescaled dictionaries
+                                                 is the generator divided by c, entry by entry,
+                                                 diagonal included.
+   ([m <= n]%coq_nat is Coq's [le] on nat; mathcomp, loaded above, rebinds the plain notation.) *)
+From PG Require Import proofs.SpaceFactsAllRates.
+Module C09_unbounded.
+Local Close Scope ring_scope.
+Local Open Scope R_scope.
+
+Example C09_scaleP_sct_content :
+  (forall (c : R) (P : params (T:=R)),
+     scaleP c P = mkParams (p_model P)
+                           (map (fun x => x * c) (p_tscale P))
+                           (map (map (fun x => x / c)) (p_mig P))
+                           (p_rec P / c) (p_lc P)) /\
+  (forall (c : R) (trans : list (state * targets (T:=R))),
+     sct c trans = map (fun e => (fst e, map (fun tr => (fst tr, snd tr / c)) (snd e))) trans).
+Proof. split; reflexivity. Qed.
+Print Assumptions C09_scaleP_sct_content.
+
+Theorem C09_transit_time_rescaling_unbounded :
+  forall (P : params (T:=R)) (s : state) (c : R),
+    (n_demes s <= length (p_tscale P))%coq_nat ->
+    transit OpsR (scaleP c P) s = map (fun tr => (fst tr, snd tr / c)) (transit OpsR P s).
+Proof. exact transit_time_rescaling. Qed.
+Print Assumptions C09_transit_time_rescaling_unbounded.
+
+Theorem C09_get_transitions_time_rescaling_unbounded :
+  forall (P : params (T:=R)) (c : R) (fuel nl nd n : nat),
+    (nd <= length (p_tscale P))%coq_nat ->
+    get_transitions OpsR (scaleP c P) fuel nl nd n
+    = option_map (fun st => (fst st, sct c (snd st))) (get_transitions OpsR P fuel nl nd n).
+Proof. exact get_transitions_time_rescaling. Qed.
+Print Assumptions C09_get_transitions_time_rescaling_unbounded.
+
+Theorem C09_rate_matrix_time_rescaling_unbounded :
+  forall (c : R) (states : list state) (trans : list (state * targets (T:=R))),
+    rate_matrix OpsR states (sct c trans) = map (map (fun x => x / c)) (rate_matrix OpsR states trans).
+Proof. exact rate_matrix_time_rescaling. Qed.
+Print Assumptions C09_rate_matrix_time_rescaling_unbounded.
+End C09_unbounded.
